@@ -68,7 +68,7 @@ def task(W, payload):
         return adaptive_task(W, payload)
     r = random.Random(f"C18:{payload['seed']}:{payload['index']}")
     kinds = ["transition", "death", "universal_death", "crude_birth", "repl_birth", "import", "infection", "infection"]
-    prog = Gen(r, Opts(kinds=kinds, max_strats=2, max_flows=6, allow_requests=False, allow_computed=False)).program()
+    prog = Gen(r, Opts(kinds=kinds, max_strats=2, max_flows=6, allow_requests=False, allow_computed=False, inexact_split_bias=0.3)).program()
     S = fresh_session(W)
     out = mk_out(prog)
     if not S.build(prog["build"]):
@@ -109,6 +109,38 @@ def task(W, payload):
             if not (cr[c] >= -1e-12 * max(1.0, max(abs(v) for v in cr))):
                 fail(out, "an empty compartment has a negative rate of change", "c18", payload, compartment=c, rate=cr[c], t=q(t),
                      x=[q(v) for v in x], program=prog["build"], params=prog["params"])
+    # a second model built IN THE SAME PROCESS from the same definition with the compartments declared in another order: an empty
+    # compartment of that model has no negative rate either (nothing may be carried over from the first model)
+    names0 = prog["build"][0]["comps"]
+    if len(names0) >= 2 and payload["index"] % 2 == 0:
+        ops2 = [dict(op) for op in prog["build"]]
+        perm = list(names0[1:]) + [names0[0]]
+        ops2[0] = dict(ops2[0], comps=perm)
+        for op in ops2:
+            if op["op"] == "stratify" and sorted(op["comps"]) == sorted(names0):
+                op["comps"] = list(perm)
+        S2 = fresh_session(W)
+        if S2.build(ops2):
+            m2 = S2.I.model
+            n2 = len(m2.compartments)
+            comps2 = [(c.name, list(c.strata.items())) for c in m2.compartments]
+            for _ in range(3):
+                x = gen_state(r, n2, "interior")
+                sub = r.sample(range(n2), r.randint(1, max(1, n2 - 1)))
+                for c in sub: x[c] = Fr(0)
+                x = fix_categories(r, x, comps2, prog["meta"]["mixing_strats"])
+                emptied = [c for c in sub if x[c] <= 0]
+                before = len(S2.log)
+                py, ln = S2.one_step(prog["params"], q(t0), [q(v) for v in x], stages=("S4", "S5"))
+                out["evals"] += 1
+                tag_diffs(out, S2, before, "c18", payload, dict(prog, build=ops2), ())
+                if py.get("ok"):
+                    cr = py["comp_rates"]
+                    out["cases"].append(h + ":twin:" + ",".join(map(str, emptied)))
+                    for c in emptied:
+                        if not (cr[c] >= -1e-12 * max(1.0, max(abs(v) for v in cr))):
+                            fail(out, "an empty compartment has a negative rate of change in a second model built in the same process with the compartments in another order",
+                                 "c18", payload, compartment=c, rate=cr[c], x=[q(v) for v in x], program=ops2, first_program=prog["build"], params=prog["params"])
     # trajectory minimum for the adaptive solver
     rr = S.I.apply({"op": "run", "params": [[k, v] for k, v in prog["params"].items()], "solver": "odeint"})
     out["evals"] += 1
@@ -117,7 +149,10 @@ def task(W, payload):
         if np.all(np.isfinite(o)) and np.abs(o).max() < 1e7:
             N = float(np.abs(o[0]).sum())
             lim = -50 * (1.4e-4 + 1.4e-4 * max(N, 1.0))
-            if o.min() < lim:
+            if o[0].min() < -1e-9 * max(N, 1.0):
+                fail(out, "the initial population has a negative entry although every declared population and split is non-negative", "c18", payload,
+                     row0=list(map(float, o[0])), program=prog["build"], params=prog["params"])
+            elif o.min() < lim:
                 fail(out, "adaptive trajectory falls below zero by more than the solver tolerance", "c18", payload, minimum=float(o.min()), limit=lim,
                      program=prog["build"], params=prog["params"])
     if payload["index"] == 0:
